@@ -2,6 +2,9 @@
 use crate::gen::*;
 use crate::util::*;
 use kmer::kmer::KmerGenerator;
+use kmer::kmer_minimisers::KmerMinimiserGenerator;
+use kmer::minimiser::MinimiserGenerator;
+use serde_json::Value;
 use serde_json::json;
 
 const K_FOCUS: [usize; 8] = [1, 2, 15, 16, 17, 30, 31, 31];
@@ -49,6 +52,141 @@ pub fn kmer_bytes() {
         for b in 4..=255u8 {
             for ctx in [vec![b], vec![b'A', b], vec![b, b'C'], vec![b'G', b, b'T'], vec![b'a', b'c', b, b, b'g', b't']] {
                 kmer_run(&ctx, k);
+            }
+        }
+    }
+    println!("{}", json!({"ev":"eof"}));
+}
+
+fn mstate(pos: usize, ml: usize, buff: &[u64], bpos: usize, active: u64, wstart: usize) -> serde_json::Map<String, Value> {
+    let mut m = serde_json::Map::new();
+    m.insert("pos".into(), json!(pos));
+    m.insert("ml".into(), json!(ml));
+    m.insert("bl".into(), json!(buff.len()));
+    m.insert("bpos".into(), json!(bpos));
+    m.insert("open".into(), json!(if active == u64::MAX { 0 } else { 1 }));
+    m.insert("active".into(), json!(digits32(active)));
+    m.insert("wstart".into(), json!(wstart));
+    m
+}
+
+pub fn minimiser_run(bytes: &[u8], w: usize, m: usize) {
+    println!("{}", json!({"ev":"minit","w":w,"m":m,"kv":0,"bytes":bytes}));
+    let mut g = MinimiserGenerator::new(bytes, w, m);
+    loop {
+        let item = g.next();
+        let (pos, ml, buff, bpos, active, wstart, mf, mr) = g.verif_state();
+        let mut st = mstate(pos, ml, &buff, bpos, active, wstart);
+        st.insert("mf".into(), json!(digits32(mf)));
+        st.insert("mr".into(), json!(digits32(mr)));
+        match item {
+            Some((v, s, e)) => println!(
+                "{}",
+                json!({"ev":"mrun","open": if v == u64::MAX {0} else {1},"v":digits32(v),"s":s,"e":e,"kmers":[],"st":st})
+            ),
+            None => {
+                println!("{}", json!({"ev":"mend","st":st}));
+                break;
+            }
+        }
+    }
+}
+
+pub fn kmermin_run(bytes: &[u8], w: usize, m: usize) {
+    println!("{}", json!({"ev":"minit","w":w,"m":m,"kv":1,"bytes":bytes}));
+    let mut g = KmerMinimiserGenerator::new(bytes, w, m);
+    loop {
+        let item = g.next();
+        let (pos, ml, buff, bpos, active, wstart, kl, kf, kr) = g.verif_state();
+        let mut st = mstate(pos, ml, &buff, bpos, active, wstart);
+        st.insert("kl".into(), json!(kl));
+        st.insert("kf".into(), json!(digits32(kf)));
+        st.insert("kr".into(), json!(digits32(kr)));
+        match item {
+            Some((v, s, e, ks)) => {
+                let kd: Vec<Vec<u8>> = ks.iter().map(|&k| digits32(k)).collect();
+                println!(
+                    "{}",
+                    json!({"ev":"mrun","open": if v == u64::MAX {0} else {1},"v":digits32(v),"s":s,"e":e,"kmers":kd,"st":st})
+                )
+            }
+            None => {
+                println!("{}", json!({"ev":"mend","st":st}));
+                break;
+            }
+        }
+    }
+}
+
+fn pick_wm(rng: &mut Rng, i: usize, kv: bool) -> (usize, usize) {
+    let m = if i % 3 == 0 { 1 + (i / 3) % 31 } else { *rng.pick(&[1usize, 2, 3, 5, 7, 15, 16, 28, 30, 31]) };
+    let maxw = if kv { 31 } else { m + 60 };
+    let w = match rng.below(5) {
+        0 => m,
+        1 => (m + 1).min(maxw),
+        2 => (m + rng.range(0, 8) as usize).min(maxw),
+        _ => rng.range(m as u64, maxw as u64) as usize,
+    };
+    (w, m)
+}
+
+/// trace minimiser|kmermin <seed> <runs> <maxlen>
+pub fn minimiser(seed: u64, runs: usize, maxlen: usize, kv: bool) {
+    let mut rng = Rng::new(seed);
+    for i in 0..runs {
+        let (w, m) = pick_wm(&mut rng, i, kv);
+        let n = match rng.below(8) {
+            0 => rng.below(w as u64 + 2) as usize,
+            1 => w.saturating_sub(1),
+            2 => w,
+            3 => w + 1,
+            _ => rng.range(0, maxlen as u64) as usize,
+        };
+        let mut bytes = gen_seq(&mut rng, n, true);
+        // trailing clean segment of length w-1, w or w+1 after an ambiguous byte
+        if rng.chance(1, 6) {
+            bytes.push(b'N');
+            let t = (w + rng.below(3) as usize).saturating_sub(1);
+            for _ in 0..t {
+                bytes.push(*rng.pick(b"ACGT"));
+            }
+        }
+        if kv {
+            kmermin_run(&bytes, w, m);
+        } else {
+            minimiser_run(&bytes, w, m);
+        }
+    }
+    println!("{}", json!({"ev":"eof"}));
+}
+
+fn rc_event(x: u64, k: usize) {
+    let rc = KmerGenerator::rev_comp(x, k);
+    let txt: Vec<u8> = kmer::numeric_to_kmer(x, k).into_bytes();
+    println!("{}", json!({"ev":"rc","k":k,"x":digits32(x),"rc":digits32(rc),"txt":txt}));
+}
+
+/// trace rc <seed> <per_k>: sampled codes for every k in 1..=31: extremes, palindromes, single-digit perturbations, random
+pub fn rc(seed: u64, per_k: usize) {
+    let mut rng = Rng::new(seed);
+    for k in 1..=31usize {
+        let top = if k == 32 { u64::MAX } else { (1u64 << (2 * k)) - 1 };
+        rc_event(0, k);
+        rc_event(top, k);
+        rc_event(1, k);
+        rc_event(top - 1, k);
+        for _ in 0..per_k {
+            let x = rng.next() & top;
+            rc_event(x, k);
+            // single digit perturbation
+            let p = rng.below(k as u64);
+            rc_event(x ^ (1 + rng.below(3)) << (2 * p), k);
+            // reverse-complement palindrome (even k): left half random, right half its reverse complement
+            if k % 2 == 0 {
+                let h = k / 2;
+                let left = rng.next() & ((1u64 << (2 * h)) - 1);
+                let pal = (left << (2 * h)) | KmerGenerator::rev_comp(left, h);
+                rc_event(pal, k);
             }
         }
     }
